@@ -24,5 +24,6 @@ ASSUMPTIONS = [
     "checked on real runs by the bounded tier",
 ]
 EXPLANATION = ("Dispatcher invariant (release a parent exactly when all its live children are reported, never twice, exit "
-               "only at the apex, no KeyError) proved preserved for an arbitrary next report or time-out; worker guarantee "
-               "and serial callback rule proved; preparation pass and termination are bounded.")
+               "only at the apex after it was REPORTED, no KeyError) proved preserved for an arbitrary next report or time-out; the "
+               "preparation pass proved to establish it against the reduction-iterator protocol; worker guarantee and serial "
+               "callback rule proved; the iterator protocol itself is assumed (bounded tier), termination is not proved.")
